@@ -321,9 +321,10 @@ class CallMixin(object):
 
   def _havoc_for_call(self, st, spec):
     self.havoc_patterns(st, spec.modifies)
-    a = z3.Int(fresh_name('alloc'))
-    st.assume(a >= st.alloc)
-    st.alloc = a
+    if spec.allocates:
+      a = z3.Int(fresh_name('alloc'))
+      st.assume(a >= st.alloc)
+      st.alloc = a
 
   # ------------------------------------------------------------------ externs
   def call_extern(self, st, cx, name, recv, args, kwargs, node):
@@ -375,6 +376,10 @@ class CallMixin(object):
       s2.path.append('%s raises %s@%s' % (ex.name, exc, line))
       outs.append((s2, Exc(exc, node, 'raised by extern %s' % ex.name, value=V(Ty('ref', (), exc), r))))
     self.havoc_patterns(st, ex.modifies)
+    if ex.allocates:
+      a = z3.Int(fresh_name('alloc'))
+      st.assume(a >= st.alloc)
+      st.alloc = a
     if ex.returns is None:
       res = NONE_V
     elif ex.fresh:
@@ -499,7 +504,7 @@ class CallMixin(object):
       ty = Ty('ref', (), cname)
       st.frames[fid] = {var: V(ty, x)}
       body_node = a[2]
-      guard = x > 0
+      guard = z3.BoolVal(True)     # all reference values, None (0) included
       if len(a) > 3:
         trig_node = a[3]
     elif len(a) >= 4:
